@@ -481,9 +481,10 @@ static int dsum_same(const dsum_t *a, const dsum_t *b)
 	return 1;
 }
 
-enum { EP_LOAD, EP_LOAD_STRN, EP_CREATE, EP_CREATE_STRN, EP_FILE, EP_FP, EP_APPEND, EP_AFTER_REFUSED, NEP };
+enum { EP_LOAD, EP_LOAD_STRN, EP_CREATE, EP_CREATE_STRN, EP_FILE, EP_FP, EP_APPEND, EP_AFTER_REFUSED, EP_FP_MID, NEP };
 static const char *ep_name[NEP] = { "jwks_load", "jwks_load_strn", "jwks_create", "jwks_create_strn", "jwks_load_fromfile", "jwks_load_fromfp", "jwks_load(existing set)",
-				    "jwks_load(set that refused a text that is not JSON just before)" };
+				    "jwks_load(set that refused a text that is not JSON just before)",
+				    "jwks_load_fromfp(stream positioned after a line the caller has read)" };
 
 /* load doc (len bytes; NUL-terminated too) through one entry point; returns the set, *skip = items that were there before */
 static jwk_set_t *load_via(int ep, const char *doc, size_t len, size_t *skip)
@@ -521,6 +522,21 @@ static jwk_set_t *load_via(int ep, const char *doc, size_t len, size_t *skip)
 		jwk_set_t *s = jwks_create(DOC_A);
 		*skip = 1;
 		return jwks_load(s, doc);
+	}
+	case EP_FP_MID: {
+		/* "The FILE pointer must be set to the starting position of the JWK data": the data need not start the file */
+		static const char head[] = "# key material follows\n";
+		char *buf = malloc(len + sizeof head), line[64];
+		memcpy(buf, head, sizeof head - 1);
+		memcpy(buf + sizeof head - 1, doc, len);
+		FILE *f = fmemopen(buf, len + sizeof head - 1, "rb");
+		jwk_set_t *s = NULL;
+		if (f && fgets(line, sizeof line, f))
+			s = len ? jwks_load_fromfp(NULL, f) : (jwk_set_t *)-1;
+		if (f)
+			fclose(f);
+		free(buf);
+		return s;
 	}
 	case EP_AFTER_REFUSED: {
 		/* the set carries the error of the refused load (nobody cleared it): what the next document adds is the same */
@@ -573,7 +589,7 @@ static void c07_doc(const char *doc, size_t len, unsigned epmask, int use)
 		vf_obs(vf_hash_mix(d.set_err, d.n));
 		if (d.n > 0)
 			vf_nontrivial(vf_hash(doc, len));
-		int streaming = ep == EP_FILE || ep == EP_FP;
+		int streaming = ep == EP_FILE || ep == EP_FP || ep == EP_FP_MID;
 		if (d.set_null)
 			C07V("jwk|no-set-returned", "%s returned NULL for %zu bytes: %s", ep_name[ep], len, vf_escn(doc, len > 200 ? 200 : len));
 		else {
